@@ -274,3 +274,32 @@ func VerifC11XML() {
 	}
 	verifCover("C11/xml/end")
 }
+
+// ---- (4) arbitrary input bytes: CSV / TSV ----
+
+// VerifC11CSVBytes: every byte sequence up to the bound through utfbom.Skip, the interpreted encoding/csv Reader
+// and yq's object decoder (header row, short and long records, quotes opened and never closed, bare CR, BOM
+// prefixes): a result or an error, never a panic or an endless loop.
+func VerifC11CSVBytes() {
+	s := verifStr("csv", verifParam("maxlen", 4), "")
+	prefs := NewDefaultCsvPreferences()
+	if verifChoice("tsv", 2) == 1 {
+		prefs = NewDefaultTsvPreferences()
+	}
+	prefs.AutoParse = false // cell text is not handed to the YAML parser (native library)
+	dec := NewCSVObjectDecoder(prefs)
+	if err := dec.Init(strings.NewReader(s)); err != nil {
+		verifCover("C11/csv/init-error")
+		return
+	}
+	for i := 0; i < 4; i++ {
+		n, err := dec.Decode()
+		if err != nil {
+			verifCover("C11/csv/error-or-eof")
+			break
+		}
+		verifAssert(n != nil, "C11/csv-decode-returned-nil-without-error")
+		verifCover("C11/csv/decoded")
+	}
+	verifCover("C11/csv/end")
+}
